@@ -1,6 +1,9 @@
 package vsched
 
-import "fmt"
+import (
+	"fmt"
+	"reflect"
+)
 
 // Chan models a Go channel. Unbuffered send = offer (enabled when the slot is free)
 // followed by ack (enabled once a receiver took the value): observationally a
@@ -14,6 +17,8 @@ type Chan[T any] struct {
 	buf    []T
 	slot   *sendRec[T] // pending unbuffered offer
 	closed bool
+	selVal T // value received by the last select clause on this channel
+	selOK  bool
 }
 
 type sendRec[T any] struct {
@@ -91,7 +96,7 @@ func (c *Chan[T]) recv() (T, bool) {
 		s.yield(&op{kind: "recv-nil-chan", enabled: never})
 		return zero, false
 	}
-	s.yield(&op{kind: "recv", obj: c.id, enabled: func() bool {
+	s.yield(&op{kind: "recv", obj: c.id, recvOn: []uint64{c.id}, enabled: func() bool {
 		return len(c.buf) > 0 || (c.slot != nil && !c.slot.acked && !c.slot.killed) || c.closed
 	}})
 	if len(c.buf) > 0 {
@@ -166,4 +171,133 @@ func (c *Chan[T]) Cap() int {
 		return cap(c.real)
 	}
 	return c.capn
+}
+
+// ---------------------------------------------------------------------------
+// select
+
+// SelCase is one communication clause of a select statement.
+type SelCase struct {
+	id     uint64
+	isRecv bool
+	ready  func() bool
+	commit func()
+	// pass-through mode (outside Run): the real channel, value to send, and receiver of the result
+	rchan reflect.Value
+	rsend reflect.Value
+	rset  func(v reflect.Value, ok bool)
+}
+
+// CaseRecv is `case ... <-c`.
+func (c *Chan[T]) CaseRecv() SelCase {
+	if c == nil {
+		return SelCase{isRecv: true, ready: never, commit: func() {}}
+	}
+	return SelCase{id: c.id, isRecv: true,
+		ready: func() bool {
+			return len(c.buf) > 0 || (c.slot != nil && !c.slot.acked && !c.slot.killed) || c.closed
+		},
+		commit: func() {
+			var zero T
+			s := cur
+			switch {
+			case len(c.buf) > 0:
+				c.selVal, c.selOK = c.buf[0], true
+				c.buf = c.buf[1:]
+			case c.slot != nil && !c.slot.acked && !c.slot.killed:
+				rec := c.slot
+				rec.acked = true
+				c.slot = nil
+				c.selVal, c.selOK = rec.val, true
+			default:
+				c.selVal, c.selOK = zero, false
+			}
+			s.note("sel-recv", ValKey(c.selVal), c.selOK)
+		},
+		rchan: reflect.ValueOf(c.real),
+		rset: func(v reflect.Value, ok bool) {
+			var zero T
+			c.selVal, c.selOK = zero, ok
+			if ok {
+				c.selVal, _ = v.Interface().(T)
+			}
+		},
+	}
+}
+
+// CaseSend is `case c <- v`.
+func (c *Chan[T]) CaseSend(v T) SelCase {
+	if c == nil {
+		return SelCase{ready: never, commit: func() {}}
+	}
+	return SelCase{id: c.id,
+		ready: func() bool {
+			if c.closed {
+				return true
+			}
+			if c.capn > 0 {
+				return len(c.buf) < c.capn
+			}
+			return c.slot == nil && cur.receiverWaiting(c.id)
+		},
+		commit: func() {
+			if c.closed {
+				panic("send on closed channel")
+			}
+			if c.capn > 0 {
+				c.buf = append(c.buf, v)
+			} else {
+				// a receiver is blocked on this channel: hand the value over, no ack needed
+				c.slot = &sendRec[T]{val: v}
+			}
+			cur.note("sel-sent", ValKey(v))
+		},
+		rchan: reflect.ValueOf(c.real),
+		rsend: reflect.ValueOf(&v).Elem(),
+	}
+}
+
+// SelRecv / SelRecv2 return the value received by the select clause that was chosen.
+func (c *Chan[T]) SelRecv() T          { return c.selVal }
+func (c *Chan[T]) SelRecv2() (T, bool) { return c.selVal, c.selOK }
+
+// Select picks a ready clause (every ready clause is an alternative, as in Go) and
+// commits it; it returns the clause index, or -1 for the default clause.
+func Select(hasDefault bool, cases ...SelCase) int {
+	s := cur
+	if s == nil || s.aborted {
+		return realSelect(hasDefault, cases)
+	}
+	var recvOn []uint64
+	for _, c := range cases {
+		if c.isRecv && c.id != 0 {
+			recvOn = append(recvOn, c.id)
+		}
+	}
+	anyReady := func() bool {
+		for _, c := range cases {
+			if c.ready() {
+				return true
+			}
+		}
+		return false
+	}
+	s.yield(&op{kind: "select", recvOn: recvOn, enabled: func() bool { return hasDefault || anyReady() }})
+	var ready []int
+	for i, c := range cases {
+		if c.ready() {
+			ready = append(ready, i)
+		}
+	}
+	if len(ready) == 0 {
+		s.note("select-default")
+		return -1
+	}
+	k := 0
+	if len(ready) > 1 {
+		k = s.choose(len(ready), false, false)
+	}
+	s.note("select", ready[k])
+	cases[ready[k]].commit()
+	return ready[k]
 }
